@@ -2,6 +2,7 @@
 from __future__ import annotations
 
 import ast
+import os
 import time
 from typing import Optional
 
@@ -9,7 +10,7 @@ import z3
 
 from .contract import Contract
 from .pyexpr import ExprMixin, PyDictLit
-from .pyvals import (NONE, Exc, IntSeq, NoneVal, PAbs, PyCache, PyCallable, PyConst, PyGen, PyKey, PyList, PyMap, PyObj, PyRuleSeq,
+from .pyvals import (NONE, Exc, IntSeq, NoneVal, PAbs, PyCache, PyCallable, PyConst, PyGen, PyKey, PyList, PyMap, PyObj, PyOpt, PyRuleSeq, PyStrDict,
                      PyStrSet, PyTuple, StrSeq, Tok, TokSeq, Val, ValSeq, VAL_AXIOMS, clone, fresh, is_bool, is_int, is_seq,
                      is_str, is_tok, is_val, is_z3, tok_fields, truthy)
 from .pyvc import (VC, St, Tr, Unsupported, dedent, eq, is_keyword, is_soft_keyword, join_lines, lift, str_isspace, str_lower,
@@ -165,6 +166,11 @@ class Executor(ExprMixin):
             return [fresh(prefix, ValSeq)]
         if ty == "pos":
             return [PyTuple([fresh(prefix + "_l", I), fresh(prefix + "_c", I)])]
+        if ty.startswith("optv["):
+            inner = self.mk(ty[5:-1], prefix, st)
+            if len(inner) != 1:
+                raise Unsupported("optv of a forking type")
+            return [PyOpt(fresh(prefix + "_none", z3.BoolSort()), inner[0])]
         if ty.startswith("union["):
             out = []
             for t in ty[6:-1].split("|"):
@@ -206,6 +212,9 @@ class Executor(ExprMixin):
             for f, fty in shape.items():
                 if f.startswith("__"):
                     continue
+                if fty == "initdict":
+                    o.fields[f] = self.init_dict(cls, f)
+                    continue
                 alts = self.mk(fty, f"{prefix}.{f}", st)
                 if len(alts) != 1:
                     raise Unsupported(f"optional field {cls}.{f} in a class shape (declare it per contract)")
@@ -217,6 +226,34 @@ class Executor(ExprMixin):
             return [PyConst(ty[6:])]
         raise Unsupported(f"type {ty}")
 
+    def init_dict(self, cls: str, field: str):
+        """the constant str->str dict literal assigned to self.<field> in the real <cls>.__init__"""
+        fn = self.find_function(f"{cls}.__init__")
+        if fn is None and getattr(self, "repo", None):
+            # the class lives in another module of the package: read its real source
+            pkg = os.path.join(self.repo, os.path.dirname(self.filename))
+            for f in sorted(os.listdir(pkg)):
+                if not f.endswith(".py") or f == "parser.py":
+                    continue
+                try:
+                    mod = ast.parse(open(os.path.join(pkg, f), encoding="utf-8").read())
+                except (OSError, SyntaxError):
+                    continue
+                for c in mod.body:
+                    if isinstance(c, ast.ClassDef) and c.name == cls:
+                        fn = next((m for m in c.body if isinstance(m, ast.FunctionDef) and m.name == "__init__"), None)
+                if fn is not None:
+                    break
+        for n in ast.walk(fn) if fn is not None else []:
+            tgt = n.target if isinstance(n, ast.AnnAssign) else (n.targets[0] if isinstance(n, ast.Assign) and len(n.targets) == 1 else None)
+            if (isinstance(tgt, ast.Attribute) and tgt.attr == field and isinstance(tgt.value, ast.Name) and tgt.value.id == "self"
+                    and isinstance(n.value, ast.Dict)):
+                try:
+                    return PyStrDict({ast.literal_eval(k): ast.literal_eval(v) for k, v in zip(n.value.keys, n.value.values)})
+                except Exception:
+                    break
+        return PyConst(f"{cls}.{field}:not-a-constant-dict-literal")        # only the code that reads it becomes unsupported
+
     def fresh_like(self, v, prefix):
         if v is NONE:
             return NONE
@@ -224,6 +261,8 @@ class Executor(ExprMixin):
             return fresh(prefix, v.sort())
         if isinstance(v, PyTuple):
             return PyTuple([self.fresh_like(x, prefix) for x in v.items])
+        if isinstance(v, PyOpt):
+            return PyOpt(fresh(prefix + "_none", z3.BoolSort()), self.fresh_like(v.some, prefix))
         if isinstance(v, PyMap):
             m = PyMap.fresh(prefix)
             m.nonempty = fresh(prefix + "_ne", z3.BoolSort())
@@ -235,7 +274,7 @@ class Executor(ExprMixin):
         if isinstance(v, PyCallable) and v.kind == "linesrc":
             np_ = fresh(prefix + "_pos", I)
             return PyCallable("linesrc", v.name, bound=PyGen(v.bound.items, np_))
-        if isinstance(v, (PyObj, PyConst, PyCallable)):
+        if isinstance(v, (PyObj, PyConst, PyCallable, PyStrDict)):
             return v
         raise Unsupported(f"havoc of {type(v).__name__}")
 
@@ -622,6 +661,9 @@ class Executor(ExprMixin):
             v = st.env.get(n)
             if v is NONE and ty == "val":
                 st.env[n] = NoneVal
+            if ty.startswith("optv[") and not isinstance(v, PyOpt) and n in st.env:
+                some = self.mk(ty[5:-1], f"o_{n}", st)[0] if v is NONE else v
+                st.env[n] = PyOpt(z3.BoolVal(v is NONE), some)
             if isinstance(v, PyList) and ty.startswith("seq["):
                 sort = {"seq[val]": ValSeq, "seq[Tok]": TokSeq, "seq[int]": IntSeq, "seq[str]": StrSeq}[ty]
                 sq = z3.Empty(sort)
@@ -866,6 +908,11 @@ class Executor(ExprMixin):
         if set(d) != set(names):
             raise Unsupported("TokenInfo constructor arguments")
         s, e2 = d["start"], d["end"]
+        if isinstance(s, PyOpt) or isinstance(e2, PyOpt):
+            for o in (s, e2):
+                if isinstance(o, PyOpt):
+                    self.vc(st, z3.Not(o.isnone), "safety", "position passed to TokenInfo is not None", 0)
+            s, e2 = (s.some if isinstance(s, PyOpt) else s), (e2.some if isinstance(e2, PyOpt) else e2)
         if not (isinstance(s, PyTuple) and isinstance(e2, PyTuple)):
             raise Unsupported("TokenInfo positions")
         return Tok.mk(lift(d["type"]), lift(d["string"]), lift(s.items[0]), lift(s.items[1]), lift(e2.items[0]), lift(e2.items[1]),
@@ -930,9 +977,26 @@ class Executor(ExprMixin):
             if name == "clear":
                 v.items.clear()
                 return [(st, NONE)]
+        if isinstance(v, PyCache) and name == "get" and len(args) == 2 and isinstance(args[0], PyKey) and isinstance(args[1], PyTuple) and len(args[1].items) == 2:
+            hit = z3.Select(v.present, args[0].mark)
+            d0, d1 = args[1].items
+            d0 = NoneVal if d0 is NONE else lift(d0)
+            return [(st, PyTuple([z3.If(hit, z3.Select(v.tree, args[0].mark), d0), z3.If(hit, z3.Select(v.end, args[0].mark), lift(d1))]))]
         if isinstance(v, PyCache) and name == "clear":
             v.present = z3.K(I, z3.BoolVal(False))
             return [(st, NONE)]
+        if isinstance(v, PyStrDict) and name == "get":
+            out = []
+            rest = st
+            for kk, vv in v.items.items():
+                hit = rest.clone()
+                hit.assume(a[0] == z3.StringVal(kk))
+                if self.feasible(hit, z3.BoolVal(True)):
+                    out.append((hit, z3.StringVal(vv)))
+                rest.assume(a[0] != z3.StringVal(kk))
+            if self.feasible(rest, z3.BoolVal(True)):
+                out.append((rest, args[1] if len(args) > 1 else NONE))
+            return out
         if isinstance(v, PyMap) and name == "get":
             k = a[0]
             return [(st, z3.If(z3.Select(v.present, k), z3.Select(v.value, k), a[1] if len(a) > 1 else z3.StringVal("")))]
@@ -1063,6 +1127,8 @@ class Executor(ExprMixin):
             g = self.spec_eval(r, ss)
             self.vc(st, Tr(g), "pre", f"precondition `{r}` of {short}", node.lineno)
             st.assume(Tr(g))
+        for r in c.requires_assumed:
+            st.assume(Tr(self.spec_eval(r, ss)))
         old = St()
         memo: dict = {}
         old.env = {k: clone(v, memo) for k, v in env.items()}
@@ -1350,7 +1416,7 @@ class Executor(ExprMixin):
             if fn.args.kwarg is not None:
                 s.env[fn.args.kwarg.arg] = PyConst("kwargs")
             self.assuming = True
-            for r in c.requires:
+            for r in list(c.requires) + list(c.requires_assumed):
                 s.assume(Tr(self.spec_eval(r, s)))
             self.assuming = False
             if not self.feasible(s, z3.BoolVal(True)):
@@ -1395,7 +1461,7 @@ class Executor(ExprMixin):
             if fn.args.vararg is not None:
                 s.env[fn.args.vararg.arg] = PyRuleSeq(fresh("alts", IntSeq)) if c.vararg == "seq[rulefn]" else PyConst("varargs")
             self.assuming = True
-            for r in c.requires:
+            for r in list(c.requires) + list(c.requires_assumed):
                 s.assume(Tr(self.spec_eval(r, s)))
             self.assuming = False
             runs = []
